@@ -239,7 +239,7 @@ fn wrap_uniform(label: &str, kind: &str, table_tag: &str, table: Vec<u8>, n_glyp
     ];
     let file = fontgen::build_sfnt(0x4F54544F, &tables);
     let t = Tables::from_sfnt(&file, 0).expect("own sfnt");
-    Syn { label: label.to_string(), kind: kind.to_string(), tables: t, file, bounds: Vec::new() }
+    Syn { label: label.to_string(), kind: kind.to_string(), tables: t, file, bounds: Vec::new(), seac: Vec::new() }
 }
 
 fn std_names() -> Vec<(u16, String)> {
@@ -581,7 +581,7 @@ fn glyf_font(label: &str, records: &[Vec<u8>], long: bool, pad: bool) -> Syn {
     ];
     let file = font.build();
     let t = Tables::from_sfnt(&file, 0).expect("own sfnt");
-    Syn { label: label.to_string(), kind: "glyf".into(), tables: t, file, bounds: Vec::new() }
+    Syn { label: label.to_string(), kind: "glyf".into(), tables: t, file, bounds: Vec::new(), seac: Vec::new() }
 }
 
 fn glyf_fonts(out: &mut Vec<Sized>, thorough: bool) {
